@@ -441,3 +441,19 @@ Fixpoint tm_script (qs : list req) (r : rss tm_rng) : list Z * rss tm_rng :=
       let '(v, r1) := rss_draw tm_rng Z tm_draw r q in
       let '(l, r2) := tm_script rest r1 in (v :: l, r2)
   end.
+
+(* ------------------------------------------------------------------ *)
+(* Extension: ParameterSet.generate_random_floating_param_initials -
+   ri = vb[:,0] + uniform(size=n) * (vb[:,1] - vb[:,0]), element by element.
+   `bounds` = the (lower, upper) pairs of the floating parameters, `u` the
+   drawn uniforms; numpy broadcasting of unequal lengths raises ValueError. *)
+Section Initials.
+  Context {T : Type} (N : Num T).
+  Fixpoint param_initials (bounds : list (T * T)) (u : list T) : res (list T) :=
+    match bounds, u with
+    | [], [] => Ok []
+    | (lo, hi) :: br, x :: ur =>
+        do r <- param_initials br ur; Ok (init_value N lo x hi lo :: r)
+    | _, _ => Err ValueError
+    end.
+End Initials.
